@@ -458,7 +458,50 @@ def run_filtered_loads(ctx, res, deep):
                 break
 
 
+def _raising_history(args):
+    shape, init, hist, is_async, exc_name = args
+    import builtins
+
+    cfg = ec.Config(shape, adapter=True, watcher=None, initial=init, is_async=is_async)
+    e, ad, w = ec.build_enforcer(cfg)
+    ad.uf_raises = getattr(builtins, exc_name)
+    out = []
+    for op in hist:
+        a0 = len(ad.log)
+        try:
+            ret = ec.res_str(ec.impl_call(e, op, is_async))
+        except Exception as ex:  # noqa
+            ret = "!" + type(ex).__name__
+        out.append({"ret": ret, "p": [list(r) for r in e.get_policy()], "acalls": list(ad.log[a0:])})
+    return out
+
+
+def run_raising_adapter(ctx, res, deep):
+    """an adapter that HAS update_filtered_policies but raises in it (any exception class): the enforcers swallow it and
+    update the model only - both of them"""
+    jobs = []
+    for shape in ("rbac", "dom"):
+        P, G, G2, R = ec.universe(shape)
+        for exc_name in ("NotImplementedError", "AttributeError", "RuntimeError", "KeyError"):
+            for op in ec.updatefiltered_ops(shape):
+                jobs.append((shape, {"p": P, "g": G, "g2": G2}, [op, ("add", "p", P[0])], exc_name))
+    for shape, init, hist, exc_name in jobs:
+        rs = _raising_history((shape, init, hist, False, exc_name))
+        ra = _raising_history((shape, init, hist, True, exc_name))
+        res.nontrivial.add(hash(("raising", shape, repr(hist), exc_name)))
+        for i, (x, y) in enumerate(zip(rs, ra)):
+            res.evaluations += 1
+            res.count("raising-adapter-step")
+            if x != y:
+                k = [k for k in ("ret", "p", "acalls") if x[k] != y[k]][0]
+                res.violation({"signature": f"C18:raising-adapter:{k}:{hist[i][0]}", "stream": "raising", "exc": exc_name,
+                               "what": f"{shape} model, adapter whose update_filtered_policies raises {exc_name}: after {[list(o) for o in hist[: i + 1]]} Enforcer and AsyncEnforcer differ in {k}: sync {str(x[k])[:160]!r} vs async {str(y[k])[:160]!r}",
+                               "case": {"shape": shape, "initial": init, "history": [list(o) for o in hist[: i + 1]]}, "expected": x, "observed": y, "model_text": ec.TEXT[shape]})
+                break
+
+
 def _run_stage(ctx, res, deep):
+    run_raising_adapter(ctx, res, deep)
     run_filtered_loads(ctx, res, deep)
     run_file_adapters(ctx, res, deep)
     jobs = gen(ctx, deep)
@@ -503,6 +546,10 @@ def _run_stage(ctx, res, deep):
 
 
 def replay(obj):
+    if obj.get("stream") == "raising":
+        c = obj["case"]
+        hist = [tuple(o) for o in c["history"]]
+        return _raising_history((c["shape"], c["initial"], hist, False, obj["exc"]))[-1] != _raising_history((c["shape"], c["initial"], hist, True, obj["exc"]))[-1]
     if obj.get("stream") == "filtered":
         c = obj["case"]
         hist = [tuple(tuple(x) if isinstance(x, list) else x for x in o) for o in c["history"]]
